@@ -16,12 +16,22 @@ import (
 	"verifharness/hx"
 )
 
-const Rule = "cases = (implementation, hash function, HashOpts, shuffle seed, op sequence on two tables) drawn from VERIF_SEED: " +
-	"hash in {fnv, identity, constant, mod 3, mod initial capacity}; options = defaults or a larger prime / power of two with dyadic " +
-	"load-factor bounds no looser than the defaults; small key universes (collisions, re-insertion of deleted keys), growth and " +
+const Rule = "cases = (a pool of tables: implementation, hash function, HashOpts, value equality and shuffle seed per table; op sequence) drawn from VERIF_SEED: " +
+	"hash in {fnv, identity, constant, mod 3, mod initial capacity, constants 0 / 1 / 2^63 / 2^64-1, multiples of the capacity, 2^64-1-k, high bits only, single bits}; " +
+	"options = defaults or a larger prime / power of two with dyadic load-factor bounds no looser than the defaults, bounds at the edges (min = default min, max = default max, " +
+	"max barely above min, one bound only); small key universes (collisions, re-insertion of deleted keys), growth and " +
 	"shrink sweeps across every resize boundary, churn with fresh keys, fill / DeleteAll cycles with fresh keys below the grow threshold, " +
-	"grow / DeleteAll / reuse; every mutating op (put, delete, deleteall) is compared with the Model on m, n, u, p and a " +
-	"digest of all occupied slots; non-trivial = the history had a probe/chain walk of length >= 3 or at least one resize; " +
+	"grow / DeleteAll / reuse; threshold sweeps of the number of entries (0 1 2 63 64 65 255 256 257 1023 1024 1025 4482 9409 65535 65536 65537 70000: grow to n, all queries, " +
+	"step over n and back, a second table with the same contents, walk back to empty, reuse; quick tier: every n <= 257, one of 1023..1025, 4482 or 9409 per implementation and " +
+	"one n around 2^16 for two of the four implementations, rotating with the seed; thorough: all), long grow / shrink walks through many capacities (bulk ops print the " +
+	"capacity after every resize), InitialCap at every valid capacity up to 130 and next to every power of two up to 2^17 and every prime square up to 101^2 plus a sample " +
+	"(thorough: every valid capacity up to 2^13, every 16th beyond - which ones rotates with the seed - and next to every prime square up to 2^17) and every invalid capacity " +
+	"up to 130 (thorough 3000) and next to those (must be rejected), thousands of operations over a small universe, keys 0 / -1 / MinInt / MaxInt / 2^k +- 1; " +
+	"pools of 2-5 tables that differ in implementation / hash function / options / value equality (eq, mod 8, the asymmetric <=) meeting in Equal, a table compared with itself; " +
+	"iterator values: sequences returned by All() kept, two traversals of one table advanced alternately, nested loops over one table and over two, loops broken off half-way, a " +
+	"sequence run twice, tables read and OTHER tables changed meanwhile (a change of a table ends its own traversals: that is outside the property); " +
+	"every mutating op (put, delete, deleteall, bulk putn / deln) is compared with the Model on m, n, u, p and a " +
+	"digest of all occupied slots; every case is also run on the Model (no oracle-only cases); non-trivial = the history had a probe/chain walk of length >= 3 or at least one resize; " +
 	"distinct = distinct (header, op list)"
 
 // Mode selects what Exec checks beyond the map oracle.
@@ -29,8 +39,6 @@ type Mode struct {
 	ProbeBound bool          // C03: before every put/get/delete, the probe counts must be within the capacity
 	Watchdog   time.Duration // every implementation call runs under this watchdog (0 = 2s)
 }
-
-
 
 func eqInt(a, b int) bool { return a == b }
 
@@ -46,6 +54,22 @@ func HashFor(name string, cap0 int) hash.HashFunc[int] {
 		return func(k int) uint64 { return emod(k, 3) }
 	case "modm":
 		return func(k int) uint64 { return emod(k, cap0) }
+	case "zero": // the hash values 0, 1, 2^63, 2^64-1 for every key
+		return func(int) uint64 { return 0 }
+	case "one":
+		return func(int) uint64 { return 1 }
+	case "top":
+		return func(int) uint64 { return 1 << 63 }
+	case "max":
+		return func(int) uint64 { return ^uint64(0) }
+	case "mulm": // multiples of the initial capacity
+		return func(k int) uint64 { return uint64(k) * uint64(cap0) }
+	case "neg": // huge values: 2^64-1-k
+		return func(k int) uint64 { return ^uint64(k) }
+	case "hi": // all the entropy in the high half
+		return func(k int) uint64 { return uint64(k) << 32 }
+	case "pow": // one bit set
+		return func(k int) uint64 { return uint64(1) << uint(((k%64)+64)%64) }
 	default:
 		return hash.HashFuncForInt[int](nil)
 	}
@@ -78,6 +102,7 @@ type keyCodec[K comparable] struct {
 	dig     func(K) uint64
 	hashFor func(name string, cap0 int) hash.HashFunc[K]
 	dump    func(t symboltable.SymbolTable[K, int]) string
+	ofInt   func(n int) K // the key a bulk op uses for the number n
 }
 
 var intCodec = keyCodec[int]{
@@ -86,6 +111,7 @@ var intCodec = keyCodec[int]{
 	dig:     func(k int) uint64 { return uint64(k) },
 	hashFor: HashFor,
 	dump:    func(t symboltable.SymbolTable[int, int]) string { return symboltable.VerifHashDump(t) },
+	ofInt:   func(n int) int { return n },
 }
 
 // ShowBytes renders a string key as `x` + two lower-case hex digits per byte.
@@ -117,6 +143,7 @@ var strCodec = keyCodec[string]{
 	show:    ShowBytes,
 	dig:     BytesDig,
 	hashFor: hashForStr,
+	ofInt:   strconv.Itoa,
 	dump: func(t symboltable.SymbolTable[string, int]) string {
 		s, ok := symboltable.VerifHashSlots(t)
 		if !ok {
@@ -215,7 +242,7 @@ func snap[K comparable](t symboltable.SymbolTable[K, int], kc *keyCodec[K]) snap
 	d := uint64(fnvOffset)
 	step := func(x uint64) { d = (d ^ x) * fnvPrime }
 	sn := snapshot{m: s.M, n: s.N, u: s.U, p: s.P, slotsLenOK: s.Len == s.M}
-	seen := map[K]bool{}
+	seen := make(map[K]bool, len(s.Slots))
 	for _, e := range s.Slots {
 		step(uint64(e.Index))
 		step(kc.dig(e.Key))
@@ -294,317 +321,6 @@ func ExecMode(c hx.Case, mode Mode) hx.Result {
 		return execTables(c, mode, &strCodec)
 	}
 	return execTables(c, mode, &intCodec)
-}
-
-// execTables runs one case on the real tables and on a builtin-map oracle.
-func execTables[K comparable](c hx.Case, mode Mode, kc *keyCodec[K]) hx.Result {
-	if mode.Watchdog == 0 {
-		mode.Watchdog = 2 * time.Second
-	}
-	comp := hx.HeaderGet(c.Header, "comp")
-	hname := hx.HeaderGet(c.Header, "hash")
-	cap0, _ := strconv.Atoi(hx.HeaderGet(c.Header, "cap"))
-	seed, _ := strconv.ParseInt(hx.HeaderGet(c.Header, "shuffle"), 10, 64)
-	opts := symboltable.HashOpts{InitialCap: cap0, MinLoadFactor: parseLF(hx.HeaderGet(c.Header, "minlf")),
-		MaxLoadFactor: parseLF(hx.HeaderGet(c.Header, "maxlf"))}
-	effCap := cap0
-	if effCap == 0 {
-		effCap = MinCap(comp)
-	}
-	h := kc.hashFor(hname, effCap)
-	_, numeric := any(*new(K)).(int)
-
-	res := hx.Result{BadOp: -1}
-	bad := func(i int, format string, a ...any) {
-		if res.BadOp < 0 {
-			res.BadOp = i
-			res.What = fmt.Sprintf(format, a...)
-		}
-	}
-	tags := map[string]bool{"comp=" + comp: true, "hash=" + hname: true}
-	if !numeric {
-		tags["keys=str"] = true
-	}
-
-	symboltable.VerifSetShuffleSeed(seed)
-	var tabs [2]symboltable.SymbolTable[K, int]
-	if kind := hx.Try(func() { tabs[0] = newTable(comp, h, opts); tabs[1] = newTable(comp, h, opts) }); kind != "" {
-		// the constructor rejected the options: every op prints panic (the Model does the same)
-		// (documented behaviour for a capacity below the minimum / not prime / not a power of two;
-		// inadmissible only if the options were valid)
-		if len(c.Ops) > 0 {
-			res.Outs = append(res.Outs, "panic")
-			if validCap(comp, effCap) {
-				bad(0, "constructor panicked (%s) for valid options %s", kind, c.Header)
-			}
-		}
-		res.Tags = []string{"constructor-rejects-options"}
-		return res
-	}
-	oracle := [2]map[K]int{{}, {}}
-	deleted := [2]map[K]bool{{}, {}} // keys deleted at least once and currently absent
-	longWalk, resized := false, false
-	var zeroKeyFirst, putSeen bool
-
-	for i, op := range c.Ops {
-		f := strings.Fields(op)
-		if len(f) == 0 {
-			res.Outs = append(res.Outs, "bad-op")
-			continue
-		}
-		b := 0
-		if strings.HasPrefix(f[0], "b.") {
-			b = 1
-			f[0] = f[0][2:]
-		}
-		t, orc := tabs[b], oracle[b]
-		key := func() K {
-			if len(f) > 1 {
-				return kc.parse(f[1])
-			}
-			var z K
-			return z
-		}
-		arg := func(j int) int {
-			if j < len(f) {
-				v, _ := strconv.Atoi(f[j])
-				return v
-			}
-			return 0
-		}
-		out := "bad-op"
-		before := snapshot{}
-		mutating := f[0] == "put" || f[0] == "delete" || f[0] == "deleteall"
-		if mutating {
-			before = snap(t, kc)
-		}
-		if f[0] == "put" && !putSeen {
-			putSeen = true
-			var z K
-			zeroKeyFirst = key() == z
-		}
-		// probe bound (C03) and walk-length tag
-		if f[0] == "put" || f[0] == "get" || f[0] == "delete" {
-			g, fd := safeProbes(t, key(), mode.Watchdog)
-			if g >= 3 || fd >= 3 {
-				longWalk = true
-			}
-			// After one hang has been observed for real in this process, further lookups whose probe walk
-			// (the same closure, the same stop conditions, 4m+4 steps: more than four periods) does not stop are
-			// reported as hangs without being executed: every executed one leaks a goroutine that spins forever.
-			// Put is always executed (it may re-hash before it probes).
-			if HangsObserved > 0 && ((f[0] == "get" && g == -1) || (f[0] == "delete" && fd == -1)) {
-				res.Outs = append(res.Outs, "hang")
-				bad(i, "%s would not return: its probe walk does not stop within %d steps", op, 4*mOr(before, t)+4)
-				tags["hang"] = true
-				tags["hang-predicted"] = true
-				break
-			}
-			if mode.ProbeBound {
-				st, _ := symboltable.VerifHashSlots(t)
-				bound := st.M
-				if comp == "chain" {
-					bound = st.N
-				}
-				if g < 0 || fd < 0 || g > bound || fd > bound {
-					bad(i, "%s %s: probe walk get=%d find=%d exceeds the bound %d (m=%d n=%d u=%d)", f[0], kc.show(key()), g, fd, bound, st.M, st.N, st.U)
-				}
-			}
-		}
-		var kind string
-		returned := hx.WithTimeout(mode.Watchdog, func() {
-			kind = hx.Try(func() {
-				switch f[0] {
-				case "put":
-					k, v := key(), arg(2)
-					t.Put(k, v)
-					if deleted[b][k] {
-						tags["reinsert-deleted-key"] = true
-						delete(deleted[b], k)
-					}
-					orc[k] = v
-					out = "ok"
-				case "get":
-					k := key()
-					v, ok := t.Get(k)
-					out = "ok " + optInt(v, ok)
-					want, wok := orc[k]
-					if ok != wok || (ok && v != want) {
-						bad(i, "get %s = (%d,%v), the map holds (%d,%v)", kc.show(k), v, ok, want, wok)
-					}
-				case "delete":
-					k := key()
-					v, ok := t.Delete(k)
-					out = "ok " + optInt(v, ok)
-					want, wok := orc[k]
-					if ok != wok || (ok && v != want) {
-						bad(i, "delete %s = (%d,%v), the map holds (%d,%v)", kc.show(k), v, ok, want, wok)
-					}
-					if wok {
-						deleted[b][k] = true
-					}
-					delete(orc, k)
-				case "deleteall":
-					t.DeleteAll()
-					for k := range orc {
-						delete(orc, k)
-					}
-					out = "ok"
-				case "size":
-					n := t.Size()
-					out = "ok " + strconv.Itoa(n)
-					if n != len(orc) {
-						bad(i, "size = %d, the map holds %d pairs", n, len(orc))
-					}
-				case "isempty":
-					e := t.IsEmpty()
-					out = "ok " + strconv.FormatBool(e)
-					if e != (len(orc) == 0) {
-						bad(i, "isempty = %v, the map holds %d pairs", e, len(orc))
-					}
-				case "all":
-					var got []pair
-					var keys []K
-					for k, v := range t.All() {
-						got = append(got, pair{kc.show(k), v})
-						keys = append(keys, k)
-					}
-					if len(got) != len(orc) {
-						bad(i, "all yields %d pairs, the map holds %d", len(got), len(orc))
-					} else {
-						seen := map[K]bool{}
-						for j, e := range got {
-							if w, ok := orc[keys[j]]; !ok || w != e.v || seen[keys[j]] {
-								bad(i, "all yields (%s,%d) which the map does not hold (or yields it twice)", e.k, e.v)
-							}
-							seen[keys[j]] = true
-						}
-					}
-					out = "ok " + showPairs(got, numeric)
-				case "equal":
-					e := tabs[0].Equal(tabs[1])
-					out = "ok " + strconv.FormatBool(e)
-					want := len(oracle[0]) == len(oracle[1])
-					for k, v := range oracle[0] {
-						if w, ok := oracle[1][k]; !ok || w != v {
-							want = false
-						}
-					}
-					if e != want {
-						bad(i, "equal = %v, the two maps say %v", e, want)
-					}
-				case "dump":
-					out = "ok " + kc.dump(t)
-				case "probes":
-					g, fd := safeProbes(t, key(), mode.Watchdog)
-					out = fmt.Sprintf("ok get=%d find=%d", g, fd)
-				}
-			})
-		})
-		if !returned {
-			res.Outs = append(res.Outs, "hang")
-			bad(i, "%s did not return within %v", op, mode.Watchdog)
-			tags["hang"] = true
-			HangsObserved++
-			break
-		}
-		if kind != "" {
-			res.Outs = append(res.Outs, "panic")
-			bad(i, "%s panicked (%s)", op, kind)
-			tags["panic"] = true
-			break
-		}
-		if mutating {
-			after := snap(t, kc)
-			out += " | " + after.String()
-			if after.consistent != "" {
-				bad(i, "after %s: %s", op, after.consistent)
-			}
-			if after.n != len(orc) {
-				bad(i, "after %s: n=%d, the map holds %d pairs", op, after.n, len(orc))
-			}
-			switch {
-			case after.m > before.m:
-				tags["resize-grow"] = true
-				resized = true
-			case after.m < before.m:
-				tags["resize-shrink"] = true
-				resized = true
-			case f[0] == "put" && after.u < before.u:
-				tags["rehash-same-size"] = true
-				resized = true
-			}
-			if after.u > after.n {
-				tags["tombstones-present"] = true
-			}
-			if f[0] == "put" && after.u == before.u && after.n == before.n+1 && after.m == before.m {
-				tags["tombstone-revived"] = true
-			}
-		}
-		res.Outs = append(res.Outs, out)
-	}
-	// final sweep: everything the map holds is found with its value
-	if res.BadOp < 0 && len(res.Outs) == len(c.Ops) {
-		okSweep := hx.WithTimeout(5*mode.Watchdog, func() {
-			hx.Try(func() {
-				for b := 0; b < 2; b++ {
-					for k, v := range oracle[b] {
-						if got, ok := tabs[b].Get(k); !ok || got != v {
-							bad(len(c.Ops)-1, "final sweep: get %s = (%d,%v), the map holds %d", kc.show(k), got, ok, v)
-							return
-						}
-					}
-					for k := range deleted[b] {
-						if got, ok := tabs[b].Get(k); ok {
-							bad(len(c.Ops)-1, "final sweep: deleted key %s is found again with value %d", kc.show(k), got)
-							return
-						}
-					}
-				}
-			})
-		})
-		if !okSweep {
-			bad(len(c.Ops)-1, "final sweep did not return")
-		}
-	}
-	if longWalk {
-		tags["walk>=3"] = true
-	}
-	if zeroKeyFirst && (hname == "fnv" || hname == "fnvstr") {
-		tags["default-hash-zero-key-first"] = true
-	}
-	res.Nontrivial = longWalk || resized
-	for t := range tags {
-		res.Tags = append(res.Tags, t)
-	}
-	sort.Strings(res.Tags)
-	return res
-}
-
-// HangsObserved counts the implementation calls of this process that did not return.
-var HangsObserved int
-
-// safeProbes measures the probe walks of key through the hook; a walk that panics (an index outside the
-// allocated slots) or does not come back counts as -1.
-func safeProbes[K comparable](t symboltable.SymbolTable[K, int], key K, watchdog time.Duration) (g, fd int) {
-	g, fd = -1, -1
-	hx.WithTimeout(watchdog, func() {
-		hx.Try(func() {
-			st, _ := symboltable.VerifHashSlots(t)
-			a, b := symboltable.VerifProbes(t, key, 4*st.M+4)
-			g, fd = a, b
-		})
-	})
-	return
-}
-
-// mOr returns the capacity recorded in a snapshot, or reads it from the table when the snapshot is empty.
-func mOr[K comparable](s snapshot, t symboltable.SymbolTable[K, int]) int {
-	if s.m > 0 {
-		return s.m
-	}
-	st, _ := symboltable.VerifHashSlots(t)
-	return st.M
 }
 
 // Limiter bounds a run: wall-clock budget per tier (much shorter when bin/check is searching for a witness
@@ -911,6 +627,9 @@ func Main(run *hx.Run) {
 	if mainHash(run, lim) {
 		return
 	}
+	if MainHarden(run, lim, Exec, false) {
+		return
+	}
 	for _, comp := range Comps {
 		r := run.R.Fork(comp)
 		do := func(c hx.Case) bool {
@@ -951,7 +670,13 @@ func Main(run *hx.Run) {
 			if run.Thorough() && !lim.Search() && k%16 == 0 {
 				peak = r.Range(1100, 2300) // m reaches 2^12
 			}
-			if do(hx.Case{Header: Header(r, comp, Hashes[r.Intn(len(Hashes))]), Ops: genSweep(r, peak)}) {
+			hname := Hashes[r.Intn(len(Hashes))]
+			if peak >= 1100 && comp == "linear" && hname != "fnv" && hname != "id" {
+				// one cluster of > 1000 keys: every Delete re-inserts the rest of the cluster (quadratic in the Model and in
+				// the code); colliding keys at smaller sizes are the business of GenWalk / GenSizeSweep
+				hname = "fnv"
+			}
+			if do(hx.Case{Header: Header(r, comp, hname), Ops: genSweep(r, peak)}) {
 				return
 			}
 		}
